@@ -70,6 +70,11 @@ PLANS = [
     {"plan": ["multi word item"], "rationale": "with  double  spaces"},
     "just a string",
     {"plan": ["ünï", "日本"], "rationale": "unicode ✓"},
+    # over the limit only through padding: the size limits are on the strings the accepted object carries, not on what is left after trimming
+    {"plan": ["step one" + " " * 193], "rationale": "padded item"},
+    {"plan": ["ok", " " * 120 + "x" * 100], "rationale": "padded in front"},
+    {"plan": ["ok"], "rationale": "r" * 1500 + "\t" * 501},
+    {"plan": ["a" * 198 + "  "], "rationale": " " + "r" * 1999},
 ]
 WRAPS = ["plain", "fenced_json", "fenced_none", "fenced_py", "prose_before", "prose_after", "two_objects", "torn", "oversized", "nan", "nested_deep", "empty",
          "nested_obj", "nested_in_plan", "nested_fenced", "nested_open", "bigint", "bigexp", "surrogate", "bom", "nul", "dup_keys",
